@@ -131,7 +131,7 @@ PROPS = {
         assumptions=["reedsolomon contract stub as in C04: what is checked is ordering, padding, numbering, hashes and that the PAR1 matrix is requested"],
         jobs=[
             J("par1", "C10_writer", bound="1..3 files (non-ASCII and surrogate-pair names, an empty file), 1..2 volumes, symbolic contents"),
-            J("par1", "C10_reader", bound="2 saved entries + 1 non-saved entry at every position, a comment in the index, 2 volumes; one saved file lost"),
+            J("par1", "C10_reader", bound="symbolic 32-bit program id in the version field of every volume; 2 saved entries + 1 non-saved entry at every position, a comment in the index, 2 volumes; one saved file lost"),
             J("par1", "C10_reader_many", timeout=1500, args=["-max-steps", "600000000"], bound="reference-written index with 255 / 256 / 262 entries (2 saved, the rest not saved), 2 volumes, both saved files lost"),
             J("par1", "C10_two_shapes", bound="two PAR1 sets of different shapes in one process (1x12 then 11x2 files x volumes, 11x2 then 1x12, 2x3 then 3x2): the second verified incl. the full parity check and repaired"),
         ],
